@@ -52,7 +52,8 @@ SITE_HOSTS = ["example.com", "www.example.com", "a.b.example.com", "login.exampl
 LOOKALIKE_HOSTS = ["a.example.com.evil.org", "www.example.com.evil.org", "example.com.evil.org", "badexample.com",
                    "www.badexample.com"]
 OTHER_HOSTS = ["evil.org", "sub.evil.org", "10.1.2.3"]
-DOMAIN_ATTRS = [None, None, None, "example.com", ".example.com", ".example.com", "www.example.com", ".www.example.com",
+DOMAIN_ATTRS = [None, None, None, None, None, "example.com", "example.com", ".example.com", ".example.com", ".example.com",
+                ".example.com", "www.example.com", ".www.example.com",
                 "Example.COM", "b.example.com", ".b.example.com", "evil.org", ".evil.org", "ample.com", ".ample.com", "",
                 ".2.3", "10.1.2.3", "example.com.evil.org"]
 REQ_PATHS = ["/", "/foo", "/foo/", "/foo/bar", "/foobar", "/foobar/x", "/fo", "/app", "/app/x", "/application", "/Foo",
